@@ -12,7 +12,7 @@ from collections import Counter
 
 import numpy as np
 
-from ..core import choice, draw_cfg
+from ..core import choice, draw_cfg, maybe_long
 from ..problems import FAMILIES, build_problem, draw_problem_spec
 from ..world import Act, Store
 
@@ -30,7 +30,7 @@ LEVEL_NOTE = (
 TECHNIQUE = "deterministic simulation: event log as ground truth, conservation of evaluation counters across stop/restart chains"
 DESIGN_REF = "DESIGN.md 4.3"
 BUDGET = {
-    "quick": {"plans": 30000, "wall": 90, "chunk": 8},
+    "quick": {"plans": 15000, "wall": 90, "chunk": 8},
     "thorough": {"plans": 120000, "wall": 900, "chunk": 16},
 }
 RULE = (
@@ -53,6 +53,7 @@ def gen(rng, tier, index):
     if cfg["jac"] != "callable" and spec["box"] == "degenerate":
         spec["box"] = "boxed"
     cfg["maxiter"] = int(rng.integers(1, 14))
+    maybe_long(rng, spec, cfg)
     nseg = int(choice(rng, [1, 1, 2, 2, 3, 4, 5]))
     stops = sorted(int(v) for v in rng.integers(0, cfg["maxiter"] + 1, size=nseg - 1)) if nseg > 1 else []
     plan = {
